@@ -3,6 +3,7 @@
 Every suite appends operations to a World and records, per verify operation, what the *property*
 says about it (computed from how the token was constructed, never from the model)."""
 import itertools
+import os
 import json
 
 import keys as K
@@ -324,6 +325,15 @@ def verify_sig(world, pool, tier, rng, provider="openssl"):
                 r2 = bytearray(raw)
                 r2[b // 8] ^= 1 << (b % 8)
                 emit(msg + b"." + K.b64u(bytes(r2)).encode(), "sig-bitflip", False)
+            # decoded signature: zero octets added / removed, at the ends and in front of the second half
+            # (an ECDSA r||s pair that keeps its numeric value under a lenient re-framing)
+            half = len(raw) // 2
+            for z in (1, 2, 16, 17, 34):
+                emit(msg + b"." + K.b64u(bytes(z) + raw[:half] + bytes(z) + raw[half:]).encode(), "sig-zero-extended-halves", False)
+                emit(msg + b"." + K.b64u(bytes(z) + raw).encode(), "sig-zero-prefix", False)
+                emit(msg + b"." + K.b64u(raw + bytes(z)).encode(), "sig-zero-suffix", False)
+            if len(raw) > 2 and raw[0] == 0 and raw[half] == 0:
+                emit(msg + b"." + K.b64u(raw[1:half] + raw[half + 1:]).encode(), "sig-zero-stripped-halves", False)
             # text malleability (same decoded bytes): outside C01 for public-key algs, must fail for HMAC
             alt = sig.replace(b"-", b"+").replace(b"_", b"/")
             if alt != sig:
@@ -348,6 +358,61 @@ def verify_sig(world, pool, tier, rng, provider="openssl"):
                     kb = key.k if key.kind == "oct" else key.pem(False)
                     emit(m2 + b"." + hs_sig(K.ALG_ORD[a2], kb, m2), "hdr-retarget-hmac-pub", False)
                     emit(m2 + b"." + hs_sig(K.ALG_ORD[a2], b"", m2), "hdr-retarget-hmac-empty", False)
+    return metas
+
+
+def key_lifecycle_suite(world, pool, tier, rng):
+    """C01/C13: keys come and go.  One keyring slot is loaded, used, freed and re-loaded with another key of
+    the same type and size (so that the allocator hands out the same addresses again); after every
+    re-load, tokens of the retired key must fail and tokens of the current key must verify -- under
+    both providers.  The verdict may depend on the key's content only, never on its address or history."""
+    metas = []
+    rounds = 12 if tier == "thorough" else 6
+    slot = 950
+    # no quarantine: freed blocks are handed out again at once, as with an ordinary allocator, so that a
+    # new key really lands on the retired key's address
+    world.exec_env = {"ASAN_OPTIONS": "detect_leaks=1:exitcode=86:abort_on_error=0:allocator_may_return_null=1:"
+                                      "quarantine_size_mb=0:thread_local_quarantine_size_kb=0"}
+    for name, key in pool.keys.items():
+        if key.kind == "oct":
+            sib = K.Key("oct", k=os.urandom(len(key.k)), bits=key.bits)
+        else:
+            param = {"rsa": key.bits, "rsapss": key.bits}.get(key.kind) or {"Ed25519": "ED25519", "Ed448": "ED448"}.get(key.crv, key.crv)
+            sib = K.gen_key(key.kind, param, world.ctx.scratch)
+        alg = key.admissible_algs()[0]
+        a = K.ALG_ORD[alg]
+        toks = []
+        for k in (key, sib):
+            msg = seg({"alg": alg, "typ": "JWT"}) + b"." + seg({"sub": "lifecycle"})
+            if k.kind == "oct":
+                sg = hs_sig(a, k.k, msg)
+            else:
+                okid = pool.oracle.add_key(k.pem(True))
+                raw = pool.oracle.sign(okid, alg, msg)
+                sg = None if raw is None else K.b64u(raw).encode()
+            toks.append(None if sg is None else msg + b"." + sg)
+        if None in toks:
+            continue
+        for provider in ("openssl", "gnutls"):
+            if alg == "ES256K" and provider == "gnutls":
+                continue
+            world.op("prov name " + hx(provider.encode()), tag="cfg")
+            for r in range(rounds):
+                cur = r % 2 if r < rounds - 2 else rng.randrange(2)
+                world.set_count[slot] = 0
+                it = world.add_key(slot, (key, sib)[cur], private=(key.kind == "oct"), alg_attr=None)
+                world.op("ck 0 new", tag="cfg")
+                world.op("ck 0 setkey %d %d %d" % ((a,) + it), tag="cfg")
+                for which in (0, 1, 0, 1):
+                    ok = which == cur
+                    metas.append((len(world.ops), {"kind": "verify", "key": name + ("" if cur == 0 else "-sibling"), "alg": alg, "prov": provider,
+                                                   "mut": "token of the %s key, round %d" % ("current" if ok else "retired", r),
+                                                   "may_accept": True if ok else False, "must_accept": ok}))
+                    world.op("ck 0 verify " + hx(toks[which]), tag="verify")
+                world.op("ck 0 free", tag="cfg")
+                # retire the key: alternately the item alone and the whole keyring
+                world.op("jwks %d %s" % (slot, "free 0" if r % 3 else "drop"), "echo", cmp=False, tag="cfg")
+    world.op("prov name " + hx(b"openssl"), tag="cfg")
     return metas
 
 
@@ -487,12 +552,17 @@ def token_bytes(world, pool, tier, rng):
     metas = []
     thorough = tier == "thorough"
     items = load_pool_keys(world, pool)
-    cfgs = [("nokey", None)] + [(n, n) for n in pool.keys]
+    cfgs = [("nokey", None)] + [(n, n) for n in pool.keys] + [("nokey+claims", None), ("oct32+claims", "oct32")]
     for ci, (cname, kname) in enumerate(cfgs):
         world.op("ck %d new" % ci, tag="cfg")
         if kname:
             alg = pool.keys[kname].admissible_algs()[0]
             world.op("ck %d setkey %d %d %d" % ((ci, K.ALG_ORD[alg]) + items[kname]), tag="cfg")
+        if cname.endswith("+claims"):       # every claim check the checker has is switched on
+            for which in ("iss", "sub", "aud"):
+                world.op("ck %d claimset %s %s" % (ci, which, hx(b"a")), tag="cfg")
+            world.op("ck %d leeway exp 0" % ci, tag="cfg")
+            world.op("ck %d leeway nbf 0" % ci, tag="cfg")
     toks = []
     alpha = b"AQew-_.=eyJ9"
     # exhaustive short strings over a 6-symbol alphabet
@@ -503,6 +573,12 @@ def token_bytes(world, pool, tier, rng):
     valid_h = [seg({"alg": "none"}), seg({"alg": "HS256"}), seg({"alg": "RS256", "typ": "JWT"}), seg(b'{"alg":"none"}\x00junk'),
                seg(b"[1]"), seg(b"{}"), seg(b'{"alg":5}'), seg(b"\xff\xfe"), b"", b"e30", b"e30=", b"e3="]
     valid_p = [seg({}), seg({"exp": 1}), seg(b"[]"), seg(b"1"), seg(b'{"a":"\\u0000"}'), seg(b"{"), b"", b"e30", b"e30==", b"!!!!"]
+    # every registered claim with a value of every JSON type
+    for cl in ("iss", "sub", "aud", "exp", "nbf", "iat", "jti"):
+        for v in (b'"a"', b'"b"', b'""', b"42", b"-1", b"1.5", b"true", b"false", b"null", b"[]", b'["a"]', b'["a","b"]', b"{}", b'{"a":"a"}', b"99999999999"):
+            for pl in (seg(b'{"' + cl.encode() + b'":' + v + b"}"), seg(b'{"iss":"a","sub":"a","aud":"a","' + cl.encode() + b'":' + v + b"}")):
+                toks.append(valid_h[0] + b"." + pl + b".")
+                toks.append(valid_h[1] + b"." + pl + b".AAAA")
     sigs = [b"", b"AAAA", b"A", b".", b"..", b"=", b"\xff", b"AAAA.BBBB"]
     for h in valid_h:
         for p in valid_p:
@@ -824,7 +900,10 @@ def decode_token(tok):
 SET_VALUES = [("int", "0"), ("int", "-1"), ("int", str(2 ** 63 - 1)), ("str", "-"), ("str", hx(b"x")), ("str", "NULL"),
               ("bool", "0"), ("bool", "1"), ("bool", "2"),
               ("json", hx(b"{}")), ("json", hx(b'{"a":1,"c":[]}')), ("json", hx(b"[1]")), ("json", hx(b"1")), ("json", hx(b"{")),
-              ("json", "NULL"), ("json", hx(b'{"a":1,"a":2}'))]
+              ("json", "NULL"), ("json", hx(b'{"a":1,"a":2}')),
+              # members of every JSON type, so that each typed get meets each stored type
+              ("json", hx(b'{"a":2.75,"c":"s"}')), ("json", hx(b'{"a":true,"c":null}')), ("json", hx(b'{"a":{"b":1},"c":-3}')),
+              ("json", hx(b"2.75")), ("json", hx(b"true")), ("json", hx(b'"s"')), ("json", hx(b"null")), ("json", hx(b"1e3"))]
 NAMES = [hx(b"a"), hx(b"c"), "-", "NULL"]
 
 
@@ -880,7 +959,9 @@ def setget_suite(world, pool, tier, rng):
     ops = setget_ops()
     seqs = [(o,) for o in ops] + [p for p in itertools.product(ops, repeat=2)]
     if tier != "thorough":
-        seqs = seqs[:len(ops)] + rng.sample(seqs[len(ops):], 6000)
+        # every (set, get) pair: each typed get meets each stored value; the other pairs sampled
+        setget = [(a, b) for a in ops if a[0] == "set" for b in ops if b[0] == "get"]
+        seqs = seqs[:len(ops)] + setget + rng.sample(seqs[len(ops):], 4000)
     else:
         seqs += [tuple(rng.choice(ops) for _ in range(3)) for _ in range(60000)]
     seqs += [tuple(rng.choice(ops) for _ in range(rng.randrange(4, 25))) for _ in range(400 if tier == "thorough" else 60)]
@@ -997,6 +1078,50 @@ def builder_suite(world, pool, tier, rng):
             world.op("bl 0 hget json -", tag="setget")
             metas.append((len(world.ops), {"kind": "setget", "op": "claims-after-gen", "want": PS.show_get("json", 0, b.claims.d), "on": "builder"}))
             world.op("bl 0 cget json -", tag="setget")
+    # content fidelity: header and claim members the registered names and near-misses of their usual values
+    hnames = [b"typ", b"alg", b"kid", b"cty", b"crit", b"x5t", b"TYP", b"Alg", b"x"]
+    cnames = [b"iat", b"exp", b"nbf", b"iss", b"sub", b"aud", b"jti", b"x", b"Iat"]
+    strs = [b"JWT", b"jwt", b"Jwt", b"jWT", b"JOSE", b"at+jwt", b"", b"none", b"NONE", b"HS256", b"hs256", b"RS256", b" JWT", b"JWT ", b"0", b"true",
+            b"null", "é".encode(), b"a\"b\\c", b"https://example.com/x?y=z&w"]
+    ints = ["0", "1", "-1", "5000", str(2 ** 31), str(2 ** 53 + 1), str(2 ** 63 - 1), str(-(2 ** 63))]
+    jsons = [b'["a","b"]', b'{"k":null}', b"[]", b"{}", b'[1,2.5,{"z":[]}]']
+    for ci in range(4000 if tier == "thorough" else 400):
+        world.op("bl 0 new", tag="cfg")
+        b = PS.PyBuilder()
+        if ci % 4 != 3:
+            world.op("bl 0 setkey 0 %d %d" % it, tag="cfg")
+            b.alg = "HS256"
+        if ci % 5 == 0:
+            world.op("bl 0 iat 0", tag="cfg")
+            b.iat = False
+        desc = []
+        for _ in range(rng.randrange(1, 5)):
+            hdr = rng.random() < 0.5
+            name = rng.choice(hnames if hdr else cnames)
+            ty = rng.choice(["str", "str", "int", "bool", "json"])
+            if rng.random() < 0.35:      # a registered name with a near-miss of its usual value
+                hdr, name, ty = rng.choice([(True, b"typ", "str"), (True, b"alg", "str"), (False, b"iat", "int"), (False, b"exp", "int"),
+                                            (False, b"nbf", "int"), (False, b"aud", "json"), (True, b"crit", "json")])
+            if ty == "str":
+                raw = rng.choice(strs)
+                val = hx(raw)
+            elif ty == "int":
+                raw = val = rng.choice(ints)
+            elif ty == "bool":
+                raw = val = rng.choice(["0", "1"])
+            else:
+                raw = rng.choice(jsons)
+                val = hx(raw)
+            rp = rng.randrange(2)
+            world.op("bl 0 %sset %s %s %s %d" % ("h" if hdr else "c", ty, hx(name), val, rp), tag="cfg")
+            (b.headers if hdr else b.claims).set(ty, name, raw, bool(rp))
+            desc.append("%s.%s=%s:%r" % ("h" if hdr else "c", name.decode(), ty, raw if isinstance(raw, str) else raw.decode("utf-8", "replace")))
+        now = clocks[ci % len(clocks)]
+        world.op("clock %d" % now, tag="cfg")
+        eh, ep = b.expected(now, None)
+        metas.append((len(world.ops), {"kind": "gen", "hdr": JL.jenc(eh), "pay": JL.jenc(ep), "alg": b.alg, "now": now,
+                                       "seq": "content: " + " / ".join(desc)[:200], "prog": None}))
+        world.op("bl 0 gen", tag="gen")
     # signing with a public-only key is refused
     pub = world.add_key(71, pool.keys["p256"], private=False, alg_attr="ES256")
     world.op("bl 0 new", tag="cfg")
@@ -1053,7 +1178,9 @@ def rand_tree(rng, depth=0):
         if c == 2:
             return rng.choice([True, False, None])
         if c == 3:
-            return rng.choice([1.5, -0.25, 1e10, 3.0, 0.1, 1e-7, 123456.789])
+            # short decimals, and reals that need all 17 significant digits to survive a dump/load round trip
+            return rng.choice([1.5, -0.25, 1e10, 3.0, 0.1, 1e-7, 123456.789, 0.1 + 0.2, 1727432123.456789, 2.0 ** 52 + 0.5,
+                               rng.random(), rng.uniform(-1e9, 1e9), 1.7976931348623157e308, 5e-324, 1 / 3])
         if c == 4:
             return ""
         if c == 5:
@@ -1215,7 +1342,7 @@ def builder_routes_suite(world, pool, tier, rng, extra_keys=None):
                 adm = key.admissible_algs()
                 cfg_algs = [0] + sorted({K.ALG_ORD[a] for a in adm[:2]} | {1, 7, 15} | ({attr_ord} if attr_ord else set()))
                 for cfg_alg in cfg_algs:
-                    for route in ("setkey", "cb-key-only", "cb-key-alg", "setkey+cb-other"):
+                    for route in ("setkey", "cb-key-only", "cb-key-alg", "setkey+cb-other", "setkey+cb-same-key-alg0", "setkey+cb-same-key-getalg"):
                         world.op("bl 0 new", tag="cfg")
                         admitted = private and ((attr_ord == 0 and cfg_alg != 0) or (attr_ord != 0 and (cfg_alg == 0 or cfg_alg == attr_ord)))
                         if route == "setkey":
@@ -1232,6 +1359,19 @@ def builder_routes_suite(world, pool, tier, rng, extra_keys=None):
                         elif route == "cb-key-alg":
                             world.op("bl 0 setcb key:%d:%d,alg:%d" % (it + (cfg_alg,)), tag="cfg")
                             eff_admitted, has_key, used = admitted, True, (cfg_alg or attr_ord)
+                        elif route == "setkey+cb-same-key-alg0":
+                            # the callback hands back the very item setkey installed and leaves the algorithm to the key
+                            world.op("bl 0 setkey %d %d %d" % ((cfg_alg,) + it), tag="cfg")
+                            world.op("bl 0 setcb key:%d:%d,alg:0" % it, tag="cfg")
+                            eff_admitted, has_key, used = private and attr_ord != 0, True, attr_ord
+                        elif route == "setkey+cb-same-key-getalg":
+                            # ... or only reads the configuration and re-installs the same item
+                            world.op("bl 0 setkey %d %d %d" % ((cfg_alg,) + it), tag="cfg")
+                            world.op("bl 0 setcb getalg,key:%d:%d" % it, tag="cfg")
+                            if admitted:
+                                eff_admitted, has_key, used = True, True, (cfg_alg or attr_ord)
+                            else:       # setkey was refused: the builder holds nothing, the callback supplies the key only
+                                eff_admitted, has_key, used = private and attr_ord != 0, True, attr_ord
                         else:
                             world.op("bl 0 setkey %d %d %d" % ((cfg_alg,) + it), tag="cfg")
                             world.op("bl 0 setcb nokey,alg:0", tag="cfg")
